@@ -22,6 +22,8 @@ P = "partitura.performance"
 
 
 def run(ctx):
+    from ..rules import extra as _X5
+    _X5.rule_sound_off_not_before_release(ctx)
     from ..rules import extra as _X4
     _X4.rule_ticks_round_once(ctx)
     _X4.rule_renumber_every_part_fully(ctx)
